@@ -41,3 +41,25 @@ fn verif_rposition<T, F: Fn(&T) -> bool>(v: &Vec<T>, f: F) -> (r: Option<usize>)
     }
     None
 }
+
+fn verif_rfind<'a, T, F: Fn(&&'a T) -> bool>(v: &'a Vec<T>, f: F) -> (r: Option<&'a T>)
+    requires forall|i: int| 0 <= i < v@.len() ==> f.requires((&&v@[i],))
+    ensures
+        r is Some ==> exists|k: int| 0 <= k < v@.len() && *r->0 == v@[k] && f.ensures((&&v@[k],), true)
+            && forall|j: int| k < j < v@.len() ==> f.ensures((&&v@[j],), false),
+        r is None ==> forall|j: int| 0 <= j < v@.len() ==> f.ensures((&&v@[j],), false),
+{
+    let mut k: usize = v.len();
+    while k > 0
+        invariant
+            k <= v@.len(),
+            forall|i: int| 0 <= i < v@.len() ==> f.requires((&&v@[i],)),
+            forall|j: int| k <= j < v@.len() ==> f.ensures((&&v@[j],), false),
+        decreases k
+    {
+        k -= 1;
+        let e = &v[k];
+        if f(&e) { return Some(e); }
+    }
+    None
+}
